@@ -186,7 +186,7 @@ func shortKey(key string) string {
 
 func (x *Exec) findCallEvent(key string) *EventSpec {
 	for _, ev := range x.sp.Events {
-		if ev.Kind == "call" && ev.Pkg == x.fn.pkgPath() && ev.Pattern == shortKey(key) && (ev.In == "" || strings.HasSuffix(x.fn.key, "."+ev.In)) {
+		if ev.Kind == "call" && ev.Pkg == x.fn.pkgPath() && ev.Pattern == shortKey(key) && (ev.In == "" || strings.HasSuffix(x.fn.key, "."+ev.In) || strings.HasSuffix(x.curInlineKey, "."+ev.In)) {
 			return ev
 		}
 	}
@@ -258,7 +258,16 @@ func (x *Exec) applyContract(st *State, site ast.Node, key string, clauses []*Cl
 			continue
 		}
 		n++
-		for _, part := range env.evalClause(c) {
+		parts, bad := x.tryClause(env, c)
+		if bad != "" {
+			lab := c.Label
+			if lab == "" {
+				lab = fmt.Sprint(n)
+			}
+			x.broken(st, "requires", site0+":requires:"+lab, c.Tags, bad)
+			continue
+		}
+		for _, part := range parts {
 			x.oblige(st, "requires", site0+":requires:"+part.label(n), part.tagsFor(c.Tags), part.term)
 		}
 	}
@@ -305,7 +314,11 @@ func (x *Exec) applyContract(st *State, site ast.Node, key string, clauses []*Cl
 		if (c.Kind != "ensures") || !c.relevant(x.prop) {
 			continue
 		}
-		for _, part := range post.evalClause(c) {
+		parts, bad := x.tryClause(post, c)
+		if bad != "" {
+			continue // a post-condition that cannot be evaluated is not assumed
+		}
+		for _, part := range parts {
 			st.assume(part.term)
 		}
 	}
@@ -690,7 +703,7 @@ func matchPattern(pat ast.Expr, e ast.Expr, binds map[string]ast.Expr) bool {
 
 func (x *Exec) findEvent(kind string, ch ast.Expr) (*EventSpec, map[string]ast.Expr) {
 	for _, ev := range x.sp.Events {
-		if ev.Kind != kind || ev.Pkg != x.fn.pkgPath() || (ev.In != "" && !strings.HasSuffix(x.fn.key, "."+ev.In)) {
+		if ev.Kind != kind || ev.Pkg != x.fn.pkgPath() || (ev.In != "" && !strings.HasSuffix(x.fn.key, "."+ev.In) && !strings.HasSuffix(x.curInlineKey, "."+ev.In)) {
 			continue
 		}
 		if ev.Pattern == "" || ev.Pattern == "*" {
@@ -806,12 +819,24 @@ func (x *Exec) recvEvent(st *State, ch ast.Expr, site ast.Node) (Val, Val) {
 	}
 	ok := Val{T: x.freshConst("opened", "Bool"), S: "Bool", G: types.Typ[types.Bool]}
 	ev, wild := x.findEvent("recv", ch)
+	var ost *State
 	if ev == nil {
-		x.unsupported(site, "receive on undeclared channel role "+types.ExprString(ch))
-		return v, ok
+		ev, wild, ost = x.findEventByOrigin(st, "recv", ch, site)
+	}
+	if ev == nil {
+		// a channel no contract knows: an arbitrary value arrives after an arbitrary time; nothing is
+		// recorded in the ghost state, so whatever the property needs to know about this receive
+		// is missing where it is needed
+		fmt.Printf("NOTE %s: receive on a channel without a hook (%s): arbitrary value, time passes\n", x.fn.name(), types.ExprString(ch))
+		ev = &EventSpec{Kind: "recv", Pkg: x.fn.pkgPath(), Pattern: types.ExprString(ch)}
+		wild = nil
 	}
 	binds := map[string]Val{}
-	x.bindWild(st, wild, binds)
+	if ost != nil {
+		x.bindWild(ost, wild, binds)
+	} else {
+		x.bindWild(st, wild, binds)
+	}
 	if len(ev.Vars) > 0 {
 		binds[ev.Vars[0]] = v
 	}
@@ -823,14 +848,111 @@ func (x *Exec) recvEvent(st *State, ch ast.Expr, site ast.Node) (Val, Val) {
 	return v, ok
 }
 
+// findEventByOrigin: the channel expression is a local / parameter holding a value that was read
+// from an expression a hook knows (remembered origin). The hook applies with the wildcards
+// evaluated as they were when the value was read - under the obligation that the expression
+// still yields this very channel now.
+func (x *Exec) findEventByOrigin(st *State, kind string, ch ast.Expr, site ast.Node) (*EventSpec, map[string]ast.Expr, *State) {
+	id, ok := ast.Unparen(ch).(*ast.Ident)
+	if !ok {
+		return nil, nil, nil
+	}
+	o, ok := x.info().Uses[id].(*types.Var)
+	if !ok {
+		return nil, nil, nil
+	}
+	cur, ok := st.vars[o]
+	if !ok || cur.Org == nil {
+		return nil, nil, nil
+	}
+	ev, wild := x.findEvent(kind, cur.Org.expr)
+	if ev == nil {
+		return nil, nil, nil
+	}
+	// a state with the current heap and the identifiers as they were at the time of the read
+	still := x.originHolds(st, cur)
+	ost := st.fork()
+	for obj, val := range cur.Org.env {
+		ost.vars[obj] = val
+	}
+	var tags []string
+	for _, c := range ev.Clauses {
+		for _, tg := range c.Tags {
+			if !hasTag(tags, tg) {
+				tags = append(tags, tg)
+			}
+		}
+	}
+	if len(tags) == 0 {
+		tags = []string{"*"}
+	}
+	x.oblige(st, "requires", fmt.Sprintf("%s[%d:%s]:cached-channel-is-still-%s", kind, x.ordinal(site), id.Name, sane(types.ExprString(cur.Org.expr))), tags, still)
+	fmt.Printf("NOTE %s: %s on %s is matched through the expression it was read from (%s)\n", x.fn.name(), kind, id.Name, types.ExprString(cur.Org.expr))
+	return ev, wild, ost
+}
+
+// originHolds: the term "the remembered expression of v still yields v" in state st.
+func (x *Exec) originHolds(st *State, v Val) string {
+	ost := st.fork()
+	for obj, val := range v.Org.env {
+		ost.vars[obj] = val
+	}
+	n0 := len(x.qs)
+	now := x.evalOrigin(ost, v.Org.expr)
+	x.qs = x.qs[:n0] // safety obligations of the re-evaluation were checked where the value was read
+	st.pc = ost.pc[:len(ost.pc):len(ost.pc)]
+	for k, hv := range ost.heap {
+		if _, has := st.heap[k]; !has {
+			st.heap[k] = hv
+		}
+	}
+	return app("=", now.T, v.T)
+}
+
+// evalOrigin evaluates a remembered expression; selector nodes built by withOrigin are not in
+// the type information and are evaluated structurally.
+func (x *Exec) evalOrigin(st *State, e ast.Expr) Val {
+	if sel, ok := e.(*ast.SelectorExpr); ok {
+		if _, known := x.info().Selections[sel]; !known {
+			if _, isPkg := x.info().Uses[sel.Sel]; !isPkg || x.info().TypeOf(sel) == nil {
+				base := x.evalOrigin(st, sel.X)
+				v := x.structField(base, sel.Sel.Name)
+				if _, stt := ptrStruct(base.G); stt != nil {
+					for i := 0; i < stt.NumFields(); i++ {
+						if stt.Field(i).Name() == sel.Sel.Name {
+							v.G = stt.Field(i).Type()
+						}
+					}
+				} else if stt, ok := types.Unalias(base.G).Underlying().(*types.Struct); ok {
+					for i := 0; i < stt.NumFields(); i++ {
+						if stt.Field(i).Name() == sel.Sel.Name {
+							v.G = stt.Field(i).Type()
+						}
+					}
+				}
+				return v
+			}
+		}
+	}
+	return x.eval(st, e)
+}
+
 func (x *Exec) sendEvent(st *State, ch ast.Expr, v Val, site ast.Node) {
 	ev, wild := x.findEvent("send", ch)
+	var ost *State
+	if ev == nil {
+		ev, wild, ost = x.findEventByOrigin(st, "send", ch, site)
+	}
 	if ev == nil {
 		x.unsupported(site, "send on undeclared channel role "+types.ExprString(ch))
 		return
 	}
 	binds := map[string]Val{}
-	x.bindWild(st, wild, binds)
+	if ost != nil {
+		x.bindWild(ost, wild, binds)
+	} else {
+		x.bindWild(st, wild, binds)
+	}
 	if len(ev.Vars) > 0 {
 		binds[ev.Vars[0]] = v
 	}
